@@ -48,20 +48,22 @@ theorem findCRLF_append_none {a : Bytes} (b : Bytes) {i : Nat} (h : findCRLF a =
 inductive Hdr where
   | badUtf8
   | bad (k : String)
-  | ok (st : Int) (m : Bytes)
+  | ok (st : Nat) (m : Bytes)
 deriving Repr, DecidableEq
 
 def hdrOf (env : Env) (line : Bytes) : Hdr :=
   if env.utf8Ok line then
-    match env.parseInt (splitSpace line).1 with
+    match statusOf (splitSpace line).1 with
     | none => .bad "badStatus"
-    | some st => if 10 ≤ st ∧ st < 70 then .ok st (splitSpace line).2 else .bad "statusRange"
+    | some st =>
+      if headerBad line st then .bad "badHeader"
+      else if 10 ≤ st ∧ st < 70 then .ok st (splitSpace line).2 else .bad "statusRange"
   else .badUtf8
 
 inductive Phase where
   | waitHeader                                  -- no complete header line yet, still within the bound
-  | body (st : Int) (m : Bytes) (b : Bytes)     -- 2x header parsed; `b` = body so far, within the cap
-  | closedPending (st : Int) (m : Bytes)        -- valid non-2x header: closed, response delivered at loss
+  | body (st : Nat) (m : Bytes) (b : Bytes)     -- 2x header parsed; `b` = body so far, within the cap
+  | closedPending (st : Nat) (m : Bytes)        -- valid non-2x header: closed, response delivered at loss
   | closedErr (k : String)                      -- error set and transport closed
   | crashed                                     -- header line not UTF-8: exception escaped `data_received`
 deriving Repr, DecidableEq
@@ -169,54 +171,65 @@ theorem header_step (env : Env) (dt : Bool) (s : CSt) (c : Bytes)
       simp only
       by_cases hu : env.utf8Ok ((buf ++ c).take i) = true
       · rw [if_pos hu]
-        cases hp : env.parseInt (splitSpace ((buf ++ c).take i)).1 with
+        cases hp : statusOf (splitSpace ((buf ++ c).take i)).1 with
         | none =>
           have hph : phaseOf env (buf ++ c) = .closedErr "badStatus" := by
             rw [hph0]; unfold phaseAt; rw [if_neg hi]; simp [hdrOf, hu, hp]
           unfold Rel; rw [hph]
           simp [parseHeader, hp, setError, afterHeader, Matches]
         | some st =>
-          by_cases hrange : 10 ≤ st ∧ st < 70
-          · by_cases h2x : 20 ≤ st ∧ st < 30
-            · by_cases hbig : ((buf ++ c).drop (i + 2)).length > maxBody
-              · have hph : phaseOf env (buf ++ c) = .closedErr "tooBig" := by
-                  rw [hph0]; unfold phaseAt; rw [if_neg hi]; simp only [hdrOf, hu, hp, ↓reduceIte, hrange, and_self, h2x]
+          cases hbad : headerBad ((buf ++ c).take i) st with
+          | true =>
+            have hph : phaseOf env (buf ++ c) = .closedErr "badHeader" := by
+              rw [hph0]; unfold phaseAt; rw [if_neg hi]; simp [hdrOf, hu, hp, hbad]
+            unfold Rel; rw [hph]
+            simp [parseHeader, hp, hbad, setError, afterHeader, Matches]
+          | false =>
+            by_cases hrange : 10 ≤ st ∧ st < 70
+            · by_cases h2x : 20 ≤ st ∧ st < 30
+              · by_cases hbig : ((buf ++ c).drop (i + 2)).length > maxBody
+                · have hph : phaseOf env (buf ++ c) = .closedErr "tooBig" := by
+                    rw [hph0]; unfold phaseAt; rw [if_neg hi]
+                    simp only [hdrOf, hu, hp, ↓reduceIte, hbad, Bool.false_eq_true, hrange, and_self, h2x]
+                    rw [if_pos hbig]
+                  unfold Rel; rw [hph]
+                  simp only [parseHeader, hp, hbad, Bool.false_eq_true, hrange, and_self, ↓reduceIte, afterHeader, h2x, capCheck]
                   rw [if_pos hbig]
-                unfold Rel; rw [hph]
-                simp only [parseHeader, hp, hrange, and_self, ↓reduceIte, afterHeader, h2x, capCheck]
-                rw [if_pos hbig]
-                simp [setError, Matches]
-              · have hph : phaseOf env (buf ++ c) = .body st (splitSpace ((buf ++ c).take i)).2 ((buf ++ c).drop (i + 2)) := by
-                  rw [hph0]; unfold phaseAt; rw [if_neg hi]; simp only [hdrOf, hu, hp, ↓reduceIte, hrange, and_self, h2x]
+                  simp [setError, Matches]
+                · have hph : phaseOf env (buf ++ c) = .body st (splitSpace ((buf ++ c).take i)).2 ((buf ++ c).drop (i + 2)) := by
+                    rw [hph0]; unfold phaseAt; rw [if_neg hi]
+                    simp only [hdrOf, hu, hp, ↓reduceIte, hbad, Bool.false_eq_true, hrange, and_self, h2x]
+                    rw [if_neg hbig]
+                  unfold Rel; rw [hph]
+                  simp only [parseHeader, hp, hbad, Bool.false_eq_true, hrange, and_self, ↓reduceIte, afterHeader, h2x, capCheck]
                   rw [if_neg hbig]
+                  simp [Matches]
+              · have hph : phaseOf env (buf ++ c) = .closedPending st (splitSpace ((buf ++ c).take i)).2 := by
+                  rw [hph0]; unfold phaseAt; rw [if_neg hi]
+                  simp only [hdrOf, hu, hp, ↓reduceIte, hbad, Bool.false_eq_true, hrange, and_self]
+                  rw [if_neg h2x]
                 unfold Rel; rw [hph]
-                simp only [parseHeader, hp, hrange, and_self, ↓reduceIte, afterHeader, h2x, capCheck]
-                rw [if_neg hbig]
-                simp [Matches]
-            · have hph : phaseOf env (buf ++ c) = .closedPending st (splitSpace ((buf ++ c).take i)).2 := by
-                rw [hph0]; unfold phaseAt; rw [if_neg hi]; simp only [hdrOf, hu, hp, ↓reduceIte, hrange, and_self]
+                simp only [parseHeader, hp, hbad, Bool.false_eq_true, hrange, and_self, ↓reduceIte, afterHeader]
                 rw [if_neg h2x]
+                simp [Matches]
+            · have hph : phaseOf env (buf ++ c) = .closedErr "statusRange" := by
+                rw [hph0]; unfold phaseAt; rw [if_neg hi]
+                simp only [hdrOf, hu, hp, ↓reduceIte, hbad, Bool.false_eq_true]
+                rw [if_neg hrange]
+              have h2x : ¬ (20 ≤ st ∧ st < 30) := by omega
               unfold Rel; rw [hph]
-              simp only [parseHeader, hp, hrange, and_self, ↓reduceIte, afterHeader]
+              simp only [parseHeader, hp, hbad, Bool.false_eq_true, ↓reduceIte]
+              rw [if_neg hrange]
+              simp only [setError, ↓reduceIte, afterHeader]
               rw [if_neg h2x]
               simp [Matches]
-          · have hph : phaseOf env (buf ++ c) = .closedErr "statusRange" := by
-              rw [hph0]; unfold phaseAt; rw [if_neg hi]; simp only [hdrOf, hu, hp, ↓reduceIte]
-              rw [if_neg hrange]
-            have h2x : ¬ (20 ≤ st ∧ st < 30) := by omega
-            unfold Rel; rw [hph]
-            simp only [parseHeader, hp]
-            rw [if_neg hrange]
-            simp only [setError, ↓reduceIte, afterHeader]
-            rw [if_neg h2x]
-            simp [Matches]
       · rw [if_neg hu]
         have hph : phaseOf env (buf ++ c) = .crashed := by
           rw [hph0]; unfold phaseAt; rw [if_neg hi]; simp [hdrOf, hu]
         unfold Rel; rw [hph]
         simp [crash, setError, Matches]
 
-theorem phaseAt_body (env : Env) (T : Bytes) (i : Nat) (st : Int) (m b : Bytes) (h : phaseAt env T i = .body st m b) :
+theorem phaseAt_body (env : Env) (T : Bytes) (i : Nat) (st : Nat) (m b : Bytes) (h : phaseAt env T i = .body st m b) :
     ¬ i > maxHeader ∧ hdrOf env (T.take i) = .ok st m ∧ (20 ≤ st ∧ st < 30) ∧ b = T.drop (i + 2) ∧ b.length ≤ maxBody := by
   unfold phaseAt at h
   split at h
@@ -243,7 +256,7 @@ theorem drop_append_of_le (a b : Bytes) (i : Nat) (h : i ≤ a.length) : (a ++ b
   rw [List.drop_append_of_le_length h]
 
 /-- more body bytes in the body phase -/
-theorem body_step (env : Env) (dt : Bool) (s : CSt) (T c : Bytes) (st : Int) (m b : Bytes)
+theorem body_step (env : Env) (dt : Bool) (s : CSt) (T c : Bytes) (st : Nat) (m b : Bytes)
     (hph : phaseOf env T = .body st m b) (hm : Matches s (.body st m b)) (h6 : s.lost = false) (h7 : s.decodeText = dt) :
     Rel env dt (onData env s c) (T ++ c) := by
   obtain ⟨hb, hhr, hst, hmt, hfut, hcl, hcr⟩ := hm
@@ -514,8 +527,9 @@ theorem feed_spec (env : Env) (dt : Bool) (reads : List Bytes) :
     (feed env (init dt) reads).closeReq = (phaseOf env reads.flatten).closeReq :=
   matches_fut _ _ (reads_rel env dt reads).2.2.2
 
-theorem hdrOf_ok (env : Env) (line : Bytes) (st : Int) (m : Bytes) (h : hdrOf env line = .ok st m) :
-    env.utf8Ok line = true ∧ env.parseInt (splitSpace line).1 = some st ∧ (10 ≤ st ∧ st < 70) ∧ m = (splitSpace line).2 := by
+theorem hdrOf_ok (env : Env) (line : Bytes) (st : Nat) (m : Bytes) (h : hdrOf env line = .ok st m) :
+    env.utf8Ok line = true ∧ statusOf (splitSpace line).1 = some st ∧ headerBad line st = false ∧ (10 ≤ st ∧ st < 70) ∧
+    m = (splitSpace line).2 := by
   unfold hdrOf at h
   split at h
   · rename_i hu
@@ -523,14 +537,17 @@ theorem hdrOf_ok (env : Env) (line : Bytes) (st : Int) (m : Bytes) (h : hdrOf en
     · cases h
     · rename_i st' hp
       split at h
-      · rename_i hr
-        injection h with e1 e2
-        subst e1 e2
-        exact ⟨hu, hp, hr, rfl⟩
       · cases h
+      · rename_i hb
+        split at h
+        · rename_i hr
+          injection h with e1 e2
+          subst e1 e2
+          exact ⟨hu, hp, by simpa using hb, hr, rfl⟩
+        · cases h
   · cases h
 
-theorem phaseOf_body_inv (env : Env) (T : Bytes) (st : Int) (m b : Bytes) (h : phaseOf env T = .body st m b) :
+theorem phaseOf_body_inv (env : Env) (T : Bytes) (st : Nat) (m b : Bytes) (h : phaseOf env T = .body st m b) :
     ∃ i, findCRLF T = some i ∧ i ≤ maxHeader ∧ hdrOf env (T.take i) = .ok st m ∧ (20 ≤ st ∧ st < 30) ∧
       b = T.drop (i + 2) ∧ b.length ≤ maxBody := by
   cases hf : findCRLF T with
@@ -540,7 +557,7 @@ theorem phaseOf_body_inv (env : Env) (T : Bytes) (st : Int) (m b : Bytes) (h : p
     obtain ⟨h1, h2, h3, h4, h5⟩ := phaseAt_body env T i st m b hat
     exact ⟨i, rfl, by omega, h2, h3, h4, h5⟩
 
-theorem phaseOf_closedPending_inv (env : Env) (T : Bytes) (st : Int) (m : Bytes) (h : phaseOf env T = .closedPending st m) :
+theorem phaseOf_closedPending_inv (env : Env) (T : Bytes) (st : Nat) (m : Bytes) (h : phaseOf env T = .closedPending st m) :
     ∃ i, findCRLF T = some i ∧ i ≤ maxHeader ∧ hdrOf env (T.take i) = .ok st m ∧ ¬ (20 ≤ st ∧ st < 30) := by
   cases hf : findCRLF T with
   | none => unfold phaseOf at h; rw [hf] at h; simp only at h; split at h <;> cases h
@@ -562,15 +579,15 @@ theorem phaseOf_closedPending_inv (env : Env) (T : Bytes) (st : Int) (m : Bytes)
           exact ⟨i, rfl, by omega, hh, h2x⟩
 
 /-- what a response can be, read off the whole stream `T` (the concatenation of the reads) -/
-def Faithful (env : Env) (dt : Bool) (T : Bytes) (st : Int) (m : Bytes) (b : Option Bytes) (d : Bool) : Prop :=
+def Faithful (env : Env) (dt : Bool) (T : Bytes) (st : Nat) (m : Bytes) (b : Option Bytes) (d : Bool) : Prop :=
   ∃ i, findCRLF T = some i ∧ i ≤ maxHeader ∧
-    env.utf8Ok (T.take i) = true ∧ env.parseInt (splitSpace (T.take i)).1 = some st ∧ m = (splitSpace (T.take i)).2 ∧
-    (10 ≤ st ∧ st < 70) ∧
+    env.utf8Ok (T.take i) = true ∧ statusOf (splitSpace (T.take i)).1 = some st ∧ headerBad (T.take i) st = false ∧
+    m = (splitSpace (T.take i)).2 ∧ (10 ≤ st ∧ st < 70) ∧
     ((20 ≤ st ∧ st < 30) → b = some (T.drop (i + 2)) ∧ (T.drop (i + 2)).length ≤ maxBody ∧
         (d = true ↔ (env.isText m = true ∧ dt = true)) ∧ (d = true → env.decodeBody m (T.drop (i + 2)) = 0)) ∧
     (¬ (20 ≤ st ∧ st < 30) → b = none ∧ d = false)
 
-theorem finish_response (env : Env) (dt : Bool) (T : Bytes) (exc : Bool) (st : Int) (m : Bytes) (b : Option Bytes) (d : Bool)
+theorem finish_response (env : Env) (dt : Bool) (T : Bytes) (exc : Bool) (st : Nat) (m : Bytes) (b : Option Bytes) (d : Bool)
     (h : finish env dt (phaseOf env T) exc = .response st m b d) : exc = false ∧ Faithful env dt T st m b d := by
   cases hp : phaseOf env T with
   | waitHeader => rw [hp] at h; simp only [finish] at h; split at h <;> cases h
@@ -585,12 +602,12 @@ theorem finish_response (env : Env) (dt : Bool) (T : Bytes) (exc : Bool) (st : I
       injection h with e1 e2 e3 e4
       subst e1 e2 e3 e4
       obtain ⟨i, hf, hi, hh, hn⟩ := phaseOf_closedPending_inv env T _ _ hp
-      obtain ⟨g1, g2, g3, g4⟩ := hdrOf_ok env _ _ _ hh
-      refine ⟨by simpa using he, i, hf, hi, g1, g2, g4, g3, fun h2 => absurd h2 hn, fun _ => ⟨rfl, rfl⟩⟩
+      obtain ⟨g1, g2, g2b, g3, g4⟩ := hdrOf_ok env _ _ _ hh
+      refine ⟨by simpa using he, i, hf, hi, g1, g2, g2b, g4, g3, fun h2 => absurd h2 hn, fun _ => ⟨rfl, rfl⟩⟩
   | body st' m' b' =>
     rw [hp] at h
     obtain ⟨i, hf, hi, hh, h2x, hb, hlen⟩ := phaseOf_body_inv env T _ _ _ hp
-    obtain ⟨g1, g2, g3, g4⟩ := hdrOf_ok env _ _ _ hh
+    obtain ⟨g1, g2, g2b, g3, g4⟩ := hdrOf_ok env _ _ _ hh
     simp only [finish] at h
     split at h
     · cases h
@@ -601,7 +618,7 @@ theorem finish_response (env : Env) (dt : Bool) (T : Bytes) (exc : Bool) (st : I
         · rename_i hd
           injection h with e1 e2 e3 e4
           subst e1 e2 e3 e4
-          refine ⟨by simpa using he, i, hf, hi, g1, g2, g4, g3, fun _ => ?_, fun hn => absurd h2x hn⟩
+          refine ⟨by simpa using he, i, hf, hi, g1, g2, g2b, g4, g3, fun _ => ?_, fun hn => absurd h2x hn⟩
           subst hb
           exact ⟨rfl, hlen, ⟨fun _ => ht, fun _ => rfl⟩, fun _ => hd⟩
         · cases h
@@ -610,11 +627,11 @@ theorem finish_response (env : Env) (dt : Bool) (T : Bytes) (exc : Bool) (st : I
       · rename_i ht
         injection h with e1 e2 e3 e4
         subst e1 e2 e3 e4
-        refine ⟨by simpa using he, i, hf, hi, g1, g2, g4, g3, fun _ => ?_, fun hn => absurd h2x hn⟩
+        refine ⟨by simpa using he, i, hf, hi, g1, g2, g2b, g4, g3, fun _ => ?_, fun hn => absurd h2x hn⟩
         subst hb
         exact ⟨rfl, hlen, ⟨fun hx => (by cases hx), fun hx => absurd hx ht⟩, fun hx => (by cases hx)⟩
 
-theorem phase_tooBig (env : Env) (T : Bytes) (i : Nat) (st : Int) (m : Bytes)
+theorem phase_tooBig (env : Env) (T : Bytes) (i : Nat) (st : Nat) (m : Bytes)
     (hf : findCRLF T = some i) (hi : i ≤ maxHeader) (hh : hdrOf env (T.take i) = .ok st m) (h2x : 20 ≤ st ∧ st < 30)
     (hbig : (T.drop (i + 2)).length > maxBody) : phaseOf env T = .closedErr "tooBig" := by
   unfold phaseOf; rw [hf]; simp only
